@@ -16,8 +16,25 @@ fn run_case(suite: &str, case: &Value, out: &mut Vec<Value>) -> Value {
         "scenario" => scenario::run_scenario(case, out),
         "mbuilder" => mbuilder::run(case),
         "termination" => termination_table(),
+        "ppf" => ppf_case(case),
         _ => panic!("unknown suite {suite}"),
     }
+}
+
+/// the Student-t quantile routine the library calls (distrs), at given argument bit patterns: lets the orchestrator evaluate
+/// ppf at the quantile argument the Coq model (Model/BandFloat.v) computes, without replicating the library's formula
+fn ppf_case(case: &Value) -> Value {
+    let dof = case["dof"].as_u64().unwrap();
+    let ts: Vec<Value> = case["q"]
+        .as_array()
+        .unwrap()
+        .iter()
+        .map(|b| {
+            let q = f64::from_bits(b.as_str().unwrap().parse::<u64>().unwrap());
+            Value::String(distrs::StudentsT::ppf(q, dof as f64).to_bits().to_string())
+        })
+        .collect();
+    serde_json::json!({"t": ts})
 }
 
 /// every constructor of the linked crate's TerminationReason with was_successful()
